@@ -985,10 +985,14 @@ use write_fonts::FontBuilder;
 #[derive(Clone, Debug, Serialize, Deserialize, PartialEq)]
 pub enum FbOp {
     AddRaw { tag: [u8; 4], len: u32, seed: u64 },
+    /// the same, but the bytes are lent to the builder from caller memory whose address is `skew` mod 8
+    AddBorrowed { tag: [u8; 4], len: u32, seed: u64, skew: u8 },
     /// copy missing tables from the source font built in phase 1
     CopyFromSource,
     /// copy missing tables from a corpus font
     CopyFromCorpus { font: usize },
+    /// copy missing tables from a corpus font whose file sits at an address that is `skew` mod 8
+    CopyFromCorpusAt { font: usize, skew: u8 },
     Contains { tag: [u8; 4] },
     CloneAndContinue,
 }
@@ -999,6 +1003,29 @@ pub struct FbTrace {
     pub source: Vec<([u8; 4], u32, u64)>,
     pub ops: Vec<FbOp>,
     pub shuffle_seed: u64,
+    /// address (mod 8) at which the source font's file is placed before it is opened and copied from
+    #[serde(default)]
+    pub source_skew: u8,
+}
+
+/// Caller memory at a chosen address residue: a buffer and the offset at which `len` bytes start.
+struct Placed {
+    buf: Vec<u8>,
+    at: usize,
+    len: usize,
+}
+
+impl Placed {
+    fn new(data: &[u8], skew: u8) -> Placed {
+        let mut buf = vec![0xA5u8; data.len() + 16];
+        let base = buf.as_ptr() as usize;
+        let at = (8 + skew as usize - base % 8) % 8;
+        buf[at..at + data.len()].copy_from_slice(data);
+        Placed { buf, at, len: data.len() }
+    }
+    fn slice(&self) -> &[u8] {
+        &self.buf[self.at..self.at + self.len]
+    }
 }
 
 pub struct FontBuilderHistory;
@@ -1074,14 +1101,17 @@ impl Engine for FontBuilderHistory {
         let mut ops = Vec::new();
         for _ in 0..(1 + rng.below(12)) {
             ops.push(match rng.below(10) {
-                0..=5 => FbOp::AddRaw { tag: if rng.chance(1, 10) { [b'Q', b'0' + rng.below(10) as u8, b' ', b' '] } else { *rng.pick(&FB_TAGS) }, len: gen_len(&mut rng), seed: rng.next_u64() },
+                0..=3 => FbOp::AddRaw { tag: if rng.chance(1, 10) { [b'Q', b'0' + rng.below(10) as u8, b' ', b' '] } else { *rng.pick(&FB_TAGS) }, len: gen_len(&mut rng), seed: rng.next_u64() },
+                4 | 5 => FbOp::AddBorrowed { tag: *rng.pick(&FB_TAGS), len: gen_len(&mut rng), seed: rng.next_u64(), skew: rng.below(8) as u8 },
                 6 => FbOp::CopyFromSource,
+                7 if rng.chance(1, 2) => FbOp::CopyFromCorpusAt { font: rng.usize_below(crate::corpus::corpus().len()), skew: rng.below(8) as u8 },
                 7 => FbOp::CopyFromCorpus { font: rng.usize_below(crate::corpus::corpus().len()) },
                 8 => FbOp::Contains { tag: *rng.pick(&FB_TAGS) },
                 _ => FbOp::CloneAndContinue,
             });
         }
-        FbTrace { source, ops, shuffle_seed: rng.next_u64() }
+        let shuffle_seed = rng.next_u64();
+        FbTrace { source, ops, shuffle_seed, source_skew: if rng.chance(1, 2) { 0 } else { rng.below(8) as u8 } }
     }
     fn execute(&self, t: &mut FbTrace, stats: &mut Stats) -> Verdict {
         let fail = |oracle: &str, detail: String| Verdict::Fail(Violation::new("C06", oracle, detail));
@@ -1098,10 +1128,24 @@ impl Engine for FontBuilderHistory {
         if let Err((o, d)) = verify_image(&source_img, &src_model) {
             return fail(&o, format!("source font: {d}"));
         }
-        let source_ref = match read_fonts::FontRef::new(&source_img) {
+        let source_placed = Placed::new(&source_img, t.source_skew);
+        if t.source_skew % 4 != 0 {
+            stats.bump("fault.mem.source_font_at_unaligned_address");
+        }
+        let source_ref = match read_fonts::FontRef::new(source_placed.slice()) {
             Ok(f) => f,
             Err(e) => return fail("C06.opens", format!("source font: {e}")),
         };
+        // caller memory lent to the builder lives longer than the builder
+        let lent: Vec<Option<Placed>> = t
+            .ops
+            .iter()
+            .map(|op| match op {
+                FbOp::AddBorrowed { len, seed, skew, .. } => Some(Placed::new(&table_bytes(*seed, *len), *skew)),
+                FbOp::CopyFromCorpusAt { font, skew } => Some(Placed::new(crate::corpus::corpus()[*font % crate::corpus::corpus().len()].data, *skew)),
+                _ => None,
+            })
+            .collect();
         // phase 2: history
         let mut model: BTreeMap<[u8; 4], Vec<u8>> = BTreeMap::new();
         let mut b = FontBuilder::new();
@@ -1116,6 +1160,36 @@ impl Engine for FontBuilderHistory {
                     }
                     b.add_raw(Tag::new(tag), d.clone());
                     model.insert(*tag, d);
+                }
+                FbOp::AddBorrowed { tag, skew, .. } => {
+                    let Some(pl) = &lent[i] else { continue };
+                    if model.contains_key(tag) {
+                        nontrivial = true;
+                        stats.bump("probe.C06.tag_overwritten");
+                    }
+                    if skew % 4 != 0 {
+                        stats.bump("fault.mem.table_lent_from_unaligned_address");
+                    }
+                    b.add_raw(Tag::new(tag), pl.slice());
+                    model.insert(*tag, pl.slice().to_vec());
+                }
+                FbOp::CopyFromCorpusAt { skew, .. } => {
+                    let Some(pl) = &lent[i] else { continue };
+                    if let Ok(fr) = read_fonts::FontRef::new(pl.slice()) {
+                        if skew % 4 != 0 {
+                            stats.bump("fault.mem.copied_font_at_unaligned_address");
+                        }
+                        b.copy_missing_tables(fr.clone());
+                        for r in fr.table_directory.table_records() {
+                            let k = r.tag().to_be_bytes();
+                            if model.contains_key(&k) {
+                                nontrivial = true;
+                                stats.bump("probe.C06.copy_met_existing_tag");
+                            } else if let Some(d) = fr.table_data(r.tag()) {
+                                model.insert(k, d.as_bytes().to_vec());
+                            }
+                        }
+                    }
                 }
                 FbOp::CopyFromSource => {
                     b.copy_missing_tables(source_ref.clone());
@@ -1194,11 +1268,21 @@ impl Engine for FontBuilderHistory {
         for source in drop_chunks(&t.source) {
             out.push(FbTrace { source, ..t.clone() });
         }
+        if t.source_skew != 0 {
+            out.push(FbTrace { source_skew: 0, ..t.clone() });
+        }
         for (i, op) in t.ops.iter().enumerate() {
             if let FbOp::AddRaw { tag, len, seed } = op {
                 if *len > 16 {
                     let mut c = t.clone();
                     c.ops[i] = FbOp::AddRaw { tag: *tag, len: len / 2, seed: *seed };
+                    out.push(c);
+                }
+            }
+            if let FbOp::AddBorrowed { tag, len, seed, skew } = op {
+                if *len > 16 {
+                    let mut c = t.clone();
+                    c.ops[i] = FbOp::AddBorrowed { tag: *tag, len: len / 2, seed: *seed, skew: *skew };
                     out.push(c);
                 }
             }
